@@ -10,6 +10,7 @@ the end.
 -/
 import SV.Model.LazyRead
 import SV.Lemmas.LazyRead
+import SV.Lemmas.MetaTar
 
 namespace SV.Props.C02
 open SV.LazyRead
@@ -135,13 +136,19 @@ theorem attr_conversion_entry (ino : Nat) (e : Attr) :
 /-! ### metadata: the specification -/
 
 /-- The full metadata statement: the tree a metadata store builds from the TOC that `Build` writes
-for `tar` shows, at every path, the node `tarView tar` describes.  `interp` stands for
-"Build, then the store's TOC interpreter (`initFields`/`assignIDs` resp. `initNodes`), then
-`GetAttr`/`GetChild`".  NOT proved here: it needs a Lean model of the TOC interpreters composed
-with the builder's entry list (SV/Model/Toc.lean + SV/Model/Writer.lean of other properties) and an
-induction over their folds.  The equality is instead checked on every run, path by path
-(`stat` / `ls` / `xattr` ops of the correspondence: model = `tarView`, implementation = the real
-nodes over both stores), and independently by the Go oracle. -/
+for `tar` shows, at every path, the node `tarView tar` describes — for EVERY tar.  `interp` stands
+for "Build, then the store's TOC interpreter, then `GetAttr`/`GetChild`".
+Proved below (`metadata_equal_tar_partial`) for both stores' models (`Toc.memTree`, `Toc.dbTree` of
+C05) on the decidable fragment `MetaTar.TarOK`.  Still open for the full statement:
+  * link counts (the proved relation `AttrMatches` covers type+mode, size, owner, device numbers,
+    symlink target, xattrs and which paths exist — not `nlink`; the stores' NumLink bookkeeping has
+    no closed form in C05's invariant yet);
+  * archives outside the fragment: an entry for the root itself, a directory entry after its
+    content (both are where the two real stores are known to differ: db-root-attr-read-before-init,
+    db-dir-nlink-double-counted-late-dir-entry), names not spelled plainly (reduced to plain ones
+    by `cleanName` in both models, composition not formalised), mtime (not part of `TarEntry`).
+All of it is compared on every run, path by path, by the correspondence (`stat`/`ls`/`xattr`) and
+by the Go oracle. -/
 def MetadataEqualTar (interp : List TarEntry → View) : Prop :=
   ∀ tar p, (interp tar).node p = (tarView tar).node p
 
@@ -186,9 +193,8 @@ theorem dedupLast_unique (l : List (Path × TarEntry)) :
         exact ih ps x post h.2
 
 /-- **What the specification says about a path with its own (non-hardlink) entry** — "last duplicate
-wins", attributes come from that header: `metadata_equal_tar` restricted to what can be said
-without a model of the TOC interpreters (see `MetadataEqualTar`). -/
-theorem metadata_equal_tar_partial (tar : List TarEntry) (p : Path) (e : TarEntry)
+wins", attributes come from that header (a fact about `tarView` alone). -/
+theorem spec_last_duplicate_wins (tar : List TarEntry) (p : Path) (e : TarEntry)
     (he : findEntry (liveEntries tar) p = some e) (hnl : e.type ≠ .hardlink) :
     ∃ n, (tarView tar).node p = some n ∧
       n.type = ntypeOf e.type ∧ n.mode = e.mode % 4096 ∧ n.uid = e.uid ∧ n.gid = e.gid ∧
@@ -235,6 +241,43 @@ theorem metadata_hardlink_same_node (tar : List TarEntry) (p q : Path) (e : TarE
     | none => exact absurd h2 hq'
     | some e2 =>
       simp only [hpc, hqc, h1, h2, hr, hq, Bool.not_true, Bool.false_eq_true, if_false]
+
+/-! ### metadata: the stores' trees against the specification -/
+
+/-- **Metadata equals the tar, both stores (partial: fragment `TarOK`, link counts excepted).**
+For every tar of the decidable fragment `MetaTar.TarOK` — plain names, any duplicates (the builder's
+`importTar` keeps the last), explicit or implicit parent directories at any depth, regular files,
+directories, symlinks, char/block devices, fifos, hardlinks and hardlink chains to earlier
+non-directories, arbitrary modes, owners, device numbers and xattrs — and for the TOC the builder's
+entry translation `MetaTar.tocOfTar` writes for it:
+  * both TOC interpreters accept the TOC and their canonical views coincide (C05);
+  * walking children maps from the root (what `GetChild` does), the memory store's tree has a node
+    at path `p` exactly when `tarView tar` describes one, and then the node's `metadata.Attr`
+    matches the described node: Go file mode of (type, header mode), size, uid, gid, device
+    numbers, symlink target, xattrs (`MetaTar.AttrMatches`); a hardlink name leads to its target's
+    node; an ancestor without entry is a 0755 root:root directory; nothing else exists;
+  * the same holds for the db store's tree as far as a container can observe attributes
+    (`Toc.normalise` = `entryToAttr`). -/
+theorem metadata_equal_tar_partial (xv : Bytes → String) (tar : List TarEntry) (ok : MetaTar.TarOK xv tar) :
+    ∃ tm td, Toc.memTree (MetaTar.tocOfTar xv tar) = .accept tm ∧
+      Toc.dbTree (MetaTar.tocOfTar xv tar) = .accept td ∧ Toc.view tm = Toc.view td ∧
+      ∀ p, MetaTar.PathMatches xv tm tar p ∧ MetaTar.PathMatchesN xv td tar p :=
+  MetaTar.both_trees_match ok
+
+/-- Listings: below any directory the memory store serves exactly the names the tar describes
+(a name is served iff the path exists in `tarView`). -/
+theorem metadata_listing_equal_partial (xv : Bytes → String) (tar : List TarEntry) (ok : MetaTar.TarOK xv tar) :
+    ∃ tm, Toc.memTree (MetaTar.tocOfTar xv tar) = .accept tm ∧
+      ∀ (p : Path) (b : String),
+        (Toc.walkKids (fun k => (tm.node k).kids) tm.root (p ++ [b])).isSome =
+          ((tarView tar).node (p ++ [b])).isSome := by
+  obtain ⟨tm, hm, h⟩ := MetaTar.mem_tree_matches ok
+  refine ⟨tm, hm, fun p b => ?_⟩
+  have := h (p ++ [b])
+  unfold MetaTar.PathMatches at this
+  cases hw : Toc.walkKids (fun k => (tm.node k).kids) tm.root (p ++ [b]) with
+  | none => rw [hw] at this; simp only [] at this; rw [this]; rfl
+  | some k => rw [hw] at this; simp only [] at this; obtain ⟨n, hn, _⟩ := this; rw [hn]; rfl
 
 /-! ### non-vacuity -/
 
@@ -289,5 +332,29 @@ example : ((tarView exTar).node ["a", "f"]).map (fun n => (n.mode, n.size, n.nli
 example : ((tarView exTar).node ["a", "g"]).map (·.content) = some 2 := by decide
 example : ((tarView exTar).node ["a"]).map (fun n => (n.type, n.mode, n.nlink)) = some (.dir, 0o755, 2) := by decide
 example : ((tarView exTar).node []).map (·.nlink) = some 3 := by decide
+
+/-- rendering of xattr values used by the example -/
+def exXv : Bytes → String := fun b => String.ofList (b.map fun c => Char.ofNat c.toNat)
+
+/-- a tar of the fragment `TarOK`: a duplicate name (the second `a/b/f` wins), implicit parents
+`a` and `a/b`, a hardlink and a hardlink to that hardlink, a symlink, a sticky directory declared
+before its content, a character device with large minor number, xattrs everywhere -/
+def exTar2 : List TarEntry :=
+  let e (name : Path) (t : EType) (mode size : Nat) (lp : Path) (c : Nat) : TarEntry :=
+    { name := name, type := t, mode := mode, uid := 1000, gid := 5, size := size, link := "../t", linkPath := lp,
+      devMajor := 4, devMinor := 300, xattrs := [("user.k", [118])], content := c }
+  [e ["a", "b", "f"] .reg 0o644 5 [] 0, e ["a", "b", "f"] .reg 0o2755 7 [] 1,
+   e ["a", "l1"] .hardlink 0 0 ["a", "b", "f"] 2, e ["l2"] .hardlink 0 0 ["a", "l1"] 3,
+   e ["s"] .symlink 0o777 0 [] 4, e ["d"] .dir 0o1777 0 [] 5, e ["d", "c"] .char 0o600 0 [] 6]
+
+set_option maxRecDepth 100000 in
+/-- the hypothesis of `metadata_equal_tar_partial` is decidable and met by that tar -/
+example : MetaTar.TarOK exXv exTar2 := by decide
+
+/-- …whose view is not trivial: the chain `l2 → a/l1 → a/b/f` ends at the LAST `a/b/f` -/
+example : ((tarView exTar2).node ["l2"]).map (fun n => (n.type, n.mode, n.size, n.content)) =
+    some (.reg, 0o2755, 7, 1) := by decide
+example : ((tarView exTar2).node ["a", "b"]).map (fun n => (n.type, n.mode, n.uid)) = some (.dir, 0o755, 0) := by decide
+example : (tarView exTar2).node ["a", "x"] = none := by decide
 
 end SV.Props.C02
